@@ -129,6 +129,8 @@ Predict(cur, r) ==
          [] r.ev = "Prespawn"   -> Plain(P!PrespawnF(cur, a.c, a.p), P!PrespawnEnabled(cur, a.c, a.p))
          [] r.ev = "KillPre"    -> Plain(P!KillPreF(cur, a.c, a.p), P!KillPreEnabled(cur, a.c, a.p))
          [] r.ev = "MapPre"     -> Plain(P!MapPreF(cur, a.c, a.e, a.p), P!MapPreEnabled(cur, a.c, a.e, a.p))
+         [] r.ev = "LoseToConnecting" -> Plain(P!DisconnectEvF(P!LoseToConnectingF(cur, a.c), a.c), P!DisconnectEnabled(cur, a.c))
+         [] r.ev = "GiveUp"     -> Plain(P!GiveUpF(cur, a.c), P!GiveUpEnabled(cur, a.c))
          [] r.ev = "Stop"       -> Plain(P!StopEvF(P!StopF(cur)), P!StopEnabled(cur))
          [] r.ev = "Start"      -> Plain(P!StartF(cur), P!StartEnabled(cur))
          [] r.ev = "Authorize"  -> Plain(P!AuthorizeF(cur, a.c), cur.srv.cl[a.c].conn)
